@@ -22,13 +22,16 @@
     possible value inside "..."), [Zp t] the help of a positional written through the in-line
     replace chain of [write_positionals_of] after " -- " was prefixed.
 
-    Outside the model (not expressible in the two spec formats the correspondence uses, and
-    [AotTree.arg] does not carry them): [conflicts_with] (the blacklist is empty, so
-    [arg_conflicts] returns ""), [value_names] ([vn] is " "), [value_terminator] and [last]. *)
+    [conflicts_with] is a parameter of the model ([bl], see [arg_conflicts]).  Outside the model (not expressible in
+    the spec formats the correspondence uses, and [AotTree.arg] does not carry them): [value_names] ([vn] is " "),
+    [value_terminator], [last], argument groups, conflicts on global arguments. *)
 From ClapModel Require Import Base.Bytes Complete.AotTree Complete.BashModel Complete.FishModel Escape.EscapeModel.
 From Coq Require Import String.
 Open Scope N_scope.
 Open Scope list_scope.
+
+Section Blacklist.
+Variable bl : cmd -> arg -> list bytes.
 
 (** ---- pieces ---- *)
 Inductive zpiece := Zx (b : bytes) | Zh (t : bytes) | Zp (t : bytes).
@@ -110,17 +113,33 @@ Definition zvalue_completion (p : arg * adesc) : option (list zpiece) :=
   end.
 
 (** ---- arg_conflicts ---- *)
-(** [Arg::blacklist]: [AotTree.arg] carries no [conflicts_with] (outside the modelled class) *)
-Definition arg_blacklist (a : arg) : list bytes := [].
-(** [Command::get_arg_conflicts_with] restricted to argument ids *)
-Definition get_arg_conflicts_with (c : cmd) (a : arg) : list arg := filter_map (find_arg c) (arg_blacklist a).
+(** [Arg::blacklist] ([conflicts_with*]): [AotTree.arg] has no such field, so the blacklist is a parameter of the
+    model -- a function of the command that owns the argument and the argument ([bl c a] = the ids, in declaration
+    order); the driver supplies it from the spec, every theorem holds for every such function.
+    [Command::get_subcommands_containing] *)
+Fixpoint subcommands_containing (c : cmd) (id : bytes) {struct c} : list cmd :=
+  match c with
+  | mkCmd _ _ _ subs _ _ _ _ _ =>
+      flat_map (fun s => if existsb (fun a => beq (a_id a) id) (c_args s) then s :: subcommands_containing s id else []) subs
+  end.
+(** [Command::get_arg_conflicts_with] restricted to argument ids (groups are outside the model).  An id that names no
+    argument is skipped: for a non-global argument clap's configuration check excludes it; for a global argument the
+    Rust code panics ([expect]) when the target is not found in the command or the subcommands that contain the
+    argument -- conflicts ON global arguments are outside the modelled class (no generated tree has one) *)
+Definition get_arg_conflicts_with (x : cmd) (blacklist : list bytes) (a : arg) : list arg :=
+  if a_global a then      (* get_global_arg_conflicts_with *)
+    filter_map (fun id => find (fun y => beq (a_id y) id)
+                               (c_args x ++ flat_map c_args (subcommands_containing x (a_id a))))
+               blacklist
+  else filter_map (find_arg x) blacklist.
 Definition push_conflicts (conflicts : list arg) : list bytes :=
   flat_map (fun x => (match a_short x with Some s => [lit "-" ++ s] | None => [] end)
                      ++ (match a_long x with Some l => [lit "--" ++ l] | None => [] end)) conflicts.
+(** [c] is the command being written; it owns [a], whose blacklist is [bl c a] *)
 Definition arg_conflicts (c : cmd) (a : arg) (app_global : option cmd) : bytes :=
   let conflicts := match app_global, a_global a with
-                   | Some x, true => get_arg_conflicts_with x a
-                   | _, _ => get_arg_conflicts_with c a
+                   | Some x, true => get_arg_conflicts_with x (bl c a) a
+                   | _, _ => get_arg_conflicts_with c (bl c a) a
                    end in
   if is_nil conflicts then [] else lit "(" ++ intercalate (lit " ") (push_conflicts conflicts) ++ lit ")".
 
@@ -360,3 +379,4 @@ Definition generate_zsh (c : cmd) (d : cdesc) (bin : bytes) : option bytes :=
   | Some b => zsh_script b (dbuild (set_bin_name c bin) d)
   | None => None
   end.
+End Blacklist.
